@@ -98,6 +98,9 @@ theorem Fr.rfl' (x : FCfg) : Fr x x := ⟨Same2.rfl' _, rfl, rfl, rfl, rfl⟩
 theorem Fr.trans' {x y z : FCfg} (h1 : Fr x y) (h2 : Fr y z) : Fr x z :=
   ⟨Same2.trans h1.s2 h2.s2, h2.st.trans h1.st, h2.fired.trans h1.fired, h2.arm.trans h1.arm, h2.trans.trans h1.trans⟩
 
+theorem ArmOk.of_none {a0 : Arm} {y : FCfg} (h : y.arm = none) : ArmOk a0 y :=
+  ⟨fun b hb => (by rw [h] at hb; cases hb), fun _ => h⟩
+
 theorem ArmOk.fr {a0 : Arm} {x y : FCfg} (h : ArmOk a0 x) (f : Fr x y) : ArmOk a0 y := by
   unfold ArmOk; rw [f.arm, f.fired]; exact h
 
